@@ -97,8 +97,10 @@ type c10Env struct {
 	lastAnnounced bool // set by applyEvents: a create event arrived while the client did not hold the resource
 }
 
-func c10Project(v interface{}) interface{} {
-	// projection: hide the field "hidden"
+// c10Project is the value transformation of the transformers: it hides the
+// fields "hidden" and "cat" of a model. Like a real transformer it only knows
+// the store's own value types and fails on anything else.
+func c10Project(v interface{}) (interface{}, error) {
 	switch t := v.(type) {
 	case map[string]interface{}:
 		out := map[string]interface{}{}
@@ -107,9 +109,11 @@ func c10Project(v interface{}) interface{} {
 				out[k] = x
 			}
 		}
-		return out
+		return out, nil
+	case []interface{}:
+		return v, nil
 	}
-	return v
+	return nil, fmt.Errorf("transform: unexpected value type %T", v)
 }
 
 func newC10Env(c *core.Ctx, cfg c10Cfg) (*c10Env, error) {
@@ -133,7 +137,7 @@ func newC10Env(c *core.Ctx, cfg c10Cfg) (*c10Env, error) {
 	case "id":
 		tr = store.IDTransformer("id", nil)
 	case "id-proj":
-		tr = store.IDTransformer("id", func(id string, v interface{}) (interface{}, error) { return c10Project(v), nil })
+		tr = store.IDTransformer("id", func(id string, v interface{}) (interface{}, error) { return c10Project(v) })
 	case "custom", "custom-err", "custom-emptyrid":
 		tr = store.TransformFuncs(
 			func(rid string, pp map[string]string) string {
@@ -154,7 +158,7 @@ func newC10Env(c *core.Ctx, cfg c10Cfg) (*c10Env, error) {
 						return nil, errors.New("transform failed")
 					}
 				}
-				return c10Project(v), nil
+				return c10Project(v)
 			})
 	}
 	if cfg.Default {
